@@ -5,7 +5,6 @@ import (
 	"fmt"
 	"os"
 	"path/filepath"
-	"sort"
 	"strings"
 	"sync"
 	"time"
@@ -178,43 +177,3 @@ func (r *Run) execute() int {
 	return r.report()
 }
 
-func (r *Run) report() int {
-	nOb, nDis := 0, 0
-	bad := 0
-	sort.Slice(r.units, func(i, j int) bool { return r.units[i].Name < r.units[j].Name })
-	for _, u := range r.units {
-		if u.Undecided != "" {
-			fmt.Printf("UNDECIDED unit=%s reason=%s\n", u.Name, u.Undecided)
-			continue
-		}
-		ok := 0
-		for _, o := range u.Obls {
-			nOb++
-			if o.Status == "discharged" {
-				nDis++
-				ok++
-				if r.verbose {
-					fmt.Printf("  ok   %-60s %-10s %.2fs\n", o.Name, o.Solver, o.Seconds)
-				}
-			} else {
-				bad++
-				fmt.Printf("  FAIL %-60s status=%s solver=%s %.2fs\n       clause: %s\n       at %s\n", o.Name, o.Status, o.Solver, o.Seconds, o.Clause, o.Pos)
-				if o.Status == "failed" {
-					var ks []string
-					for _, iv := range o.Inputs {
-						if v, ok := o.Model[iv.T.Name]; ok {
-							ks = append(ks, iv.Path+"="+v)
-						}
-					}
-					fmt.Printf("       model: %s\n", strings.Join(ks, " "))
-				}
-			}
-		}
-		fmt.Printf("unit %-55s %d/%d obligations discharged (returns=%d)\n", u.Name, ok, len(u.Obls), u.Returns)
-	}
-	fmt.Printf("TOTAL %d/%d obligations discharged in %.1fs\n", nDis, nOb, time.Since(r.start).Seconds())
-	if bad > 0 {
-		return 1
-	}
-	return 0
-}
